@@ -349,9 +349,11 @@ package otr3
 // key rotation and MAC key disclosure (C04, C08, C09, C19)
 // ---------------------------------------------------------------------------
 //@ func randomInto
+//@   mayglobal r
 //@   modifies elems(b)
 //@   ensures [C13.rand.into] result == nil || result == errShortRandomRead
 //@ func randSizedSecret
+//@   mayglobal r
 //@   pure
 //@   ensures [C13.rand.sized] result1 == nil ==> (fresh(result0) && len(result0) == size)
 //@   ensures result1 != nil ==> result0 === nil
@@ -365,6 +367,7 @@ package otr3
 
 //@ func (*keyManagementContext).generateNewDHKeyPair
 //@   requires k != nil
+//@   mayglobal randomness
 //@   modifies k.ourPreviousDHKeys.*, k.ourCurrentDHKeys.*, k.ourKeyID, val(k.ourPreviousDHKeys.pub), elems(k.ourPreviousDHKeys.priv)
 //@   ensures [C13.rand.rotate,C06.rotate.fail,C08.rotate.fail] result != nil ==> (k.ourKeyID == old(k.ourKeyID) && k.ourCurrentDHKeys.pub == old(k.ourCurrentDHKeys.pub) && k.ourCurrentDHKeys.priv === old(k.ourCurrentDHKeys.priv) && k.ourPreviousDHKeys.pub == old(k.ourPreviousDHKeys.pub) && k.ourPreviousDHKeys.priv === old(k.ourPreviousDHKeys.priv))
 //@   ensures [C04.rot.our.new] result == nil ==> (k.ourKeyID == old(k.ourKeyID) + 1 && k.ourPreviousDHKeys.priv === old(k.ourCurrentDHKeys.priv) && k.ourPreviousDHKeys.pub == old(k.ourCurrentDHKeys.pub) && fresh(k.ourCurrentDHKeys.priv) && len(k.ourCurrentDHKeys.priv) == 40 && k.ourCurrentDHKeys.pub != nil && fresh(k.ourCurrentDHKeys.pub))
@@ -395,6 +398,7 @@ package otr3
 
 //@ func (*keyManagementContext).rotateOurKeys
 //@   requires k != nil
+//@   mayglobal randomness
 //@   modifies k.ourPreviousDHKeys.*, k.ourCurrentDHKeys.*, k.ourKeyID, val(k.ourPreviousDHKeys.pub), elems(k.ourPreviousDHKeys.priv), k.macKeyHistory.items, elems(k.macKeyHistory.items), k.oldMACKeys, elems(k.oldMACKeys)
 //@   ensures [C04.rot.our.noop,C09.retire.our.only] recipientKeyID != old(k.ourKeyID) ==> (result == nil && k.ourKeyID == old(k.ourKeyID) && k.ourCurrentDHKeys.pub == old(k.ourCurrentDHKeys.pub) && k.ourCurrentDHKeys.priv === old(k.ourCurrentDHKeys.priv) && k.ourPreviousDHKeys.pub == old(k.ourPreviousDHKeys.pub) && k.ourPreviousDHKeys.priv === old(k.ourPreviousDHKeys.priv) && k.oldMACKeys === old(k.oldMACKeys) && k.macKeyHistory.items === old(k.macKeyHistory.items))
 //@   ensures [C04.rot.our] (recipientKeyID == old(k.ourKeyID) && result == nil) ==> (k.ourKeyID == old(k.ourKeyID) + 1 && k.ourPreviousDHKeys.priv === old(k.ourCurrentDHKeys.priv) && k.ourPreviousDHKeys.pub == old(k.ourCurrentDHKeys.pub) && fresh(k.ourCurrentDHKeys.priv))
@@ -582,7 +586,7 @@ package otr3
 //@ func (*Conversation).genDataMsgWithFlag
 //@   requires convOK(c)
 //@   modifies anything
-//@   preserves [C18.msgstate.gen,C04.send.norotate] c.msgState, c.theirKey, c.ake, c.version, c.theirInstanceTag, c.Policies, c.keys.ourKeyID, c.keys.theirKeyID, c.keys.ourCurrentDHKeys.pub, c.keys.ourCurrentDHKeys.priv, c.keys.ourPreviousDHKeys.pub, c.keys.ourPreviousDHKeys.priv, c.keys.theirCurrentDHPubKey, c.keys.theirPreviousDHPubKey, c.smp.state, c.sentRevealSig
+//@   preserves [C18.msgstate.gen,C04.send.norotate] c.msgState, c.theirKey, c.ake, c.version, c.theirInstanceTag, c.Policies, c.keys.ourKeyID, c.keys.theirKeyID, c.keys.ourCurrentDHKeys.pub, c.keys.ourCurrentDHKeys.priv, c.keys.ourPreviousDHKeys.pub, c.keys.ourPreviousDHKeys.priv, c.keys.theirCurrentDHPubKey, c.keys.theirPreviousDHPubKey, c.smp.state, c.smp.secret, c.smp.s1, c.smp.s2, c.smp.s3, c.smp.question, c.sentRevealSig, c.ourCurrentKey, c.theirInstanceTag
 //@   ensures [C03.gen.requires.encrypted] result2 == nil ==> old(c.msgState) == encrypted
 //@   ensures [C03.gen.refuse] old(c.msgState) != encrypted ==> (result2 == errCannotSendUnencrypted && c.resend.messages.m === old(c.resend.messages.m))
 //@   ensures [C04.send.pair,C10.keyids] result2 == nil ==> (result0.senderKeyID == c.keys.ourKeyID - 1 && result0.recipientKeyID == c.keys.theirKeyID && result0.y == c.keys.ourCurrentDHKeys.pub && result0.flag == flag)
@@ -594,7 +598,7 @@ package otr3
 //@ func (*Conversation).createSerializedDataMessage
 //@   requires convOK(c)
 //@   modifies anything
-//@   preserves [C18.msgstate.create] c.msgState, c.theirKey, c.ake, c.version, c.Policies, c.keys.ourKeyID, c.keys.theirKeyID, c.smp.state, c.sentRevealSig
+//@   preserves [C18.msgstate.create] c.msgState, c.theirKey, c.ake, c.version, c.Policies, c.keys.ourKeyID, c.keys.theirKeyID, c.smp.state, c.smp.secret, c.smp.s1, c.smp.s2, c.smp.s3, c.smp.question, c.sentRevealSig, c.ourCurrentKey, c.theirInstanceTag
 //@   ensures [C03.create.requires.encrypted] result2 == nil ==> old(c.msgState) == encrypted
 //@   ensures [C03.create.refuse] old(c.msgState) != encrypted ==> (result2 != nil && result0 === nil && c.resend.messages.m === old(c.resend.messages.m))
 //@   ensures result2 != nil ==> result0 === nil
@@ -643,3 +647,30 @@ package otr3
 //@ func (*Conversation).dump
 //@   opaque
 //@   pure
+
+// ---------------------------------------------------------------------------
+// End, akeHasFinished (C18, C08, C01)
+// ---------------------------------------------------------------------------
+//@ func (*Conversation).End
+//@   requires convOK(c)
+//@   modifies anything
+//@   modifies seclog(c), msglog(c)
+//@   preserves [C18.end.frame] c.theirKey, c.version, c.Policies, c.ourCurrentKey, c.theirInstanceTag
+//@   ensures [C18.end.state] c.msgState == plainText && c.ake == nil
+//@   ensures [C18.end.event] (old(c.msgState) == encrypted ==> seclog(c) == evpush(old(seclog(c)), uint64(GoneInsecure))) && (old(c.msgState) != encrypted ==> seclog(c) == old(seclog(c)))
+//@   ensures [C18.end.msg] old(c.msgState) != encrypted ==> (len(toSend) == 0 && err == nil)
+//@   ensures [C08.end.drop] c.keys.ourCurrentDHKeys.priv === nil && c.keys.ourPreviousDHKeys.priv === nil && c.keys.ourCurrentDHKeys.pub == nil && c.keys.ourPreviousDHKeys.pub == nil
+//@   ensures [C08.end.smp] old(c.msgState) == encrypted ==> (c.smp.secret == nil && c.smp.state == nil)
+
+//@ func (*Conversation).akeHasFinished
+//@   requires c != nil && c.ake != nil && c.ourCurrentKey != nil && keysNonNil(c)
+//@   modifies anything
+//@   modifies seclog(c), msglog(c), kmcWiped(addr(c.keys)), keysWiped(addr(c.keys)), akeWiped(c.ake), akeKeysWiped(c.ake), kmcWiped(addr(c.ake.keys)), keysWiped(addr(c.ake.keys))
+//@   preserves [C01.finish.frame] c.theirKey, c.ake, c.version, c.Policies, c.ourCurrentKey, c.ourInstanceTag, c.theirInstanceTag, c.sentRevealSig, c.smp.state
+//@   ensures [C18.finish.state] c.msgState == encrypted
+//@   ensures [C18.finish.event] (old(c.msgState) != encrypted ==> seclog(c) == evpush(old(seclog(c)), uint64(GoneSecure))) && (old(c.msgState) == encrypted ==> seclog(c) == evpush(old(seclog(c)), uint64(StillSecure)))
+//@   ensures [C08.finish.wipe] kmcWiped(addr(c.keys)) == old(kmcWiped(addr(c.keys))) + 1 && keysWiped(addr(c.keys)) == old(keysWiped(addr(c.keys))) + 1 && akeWiped(c.ake) == old(akeWiped(c.ake)) + 1
+//@   ensures [C08.finish.ake] c.ake.secretExponent === nil && c.ake.revealKey.c === nil && c.ake.sigKey.c === nil && c.ake.revealKey.m1 === nil && c.ake.sigKey.m1 === nil
+//@   ensures [C04.finish.keyid,C01.install.keyid] result == nil ==> c.keys.ourKeyID == old(c.ake.keys.ourKeyID) + 1 && c.keys.theirKeyID == old(c.ake.keys.theirKeyID)
+//@   ensures [C01.install.their] c.keys.theirCurrentDHPubKey == old(c.ake.keys.theirCurrentDHPubKey)
+//@   ensures [C01.install.our] result == nil ==> (c.keys.ourPreviousDHKeys.priv === old(c.ake.keys.ourCurrentDHKeys.priv) && c.keys.ourPreviousDHKeys.pub == old(c.ake.keys.ourCurrentDHKeys.pub))
